@@ -69,6 +69,7 @@ Inductive op :=
 | AddEdge (a b : iv) | Collapse (a b : iv) | AddSubstitute (a b : iv) | Discard (i : iv)
 | DropOut (v : iv) | CutOut (u : iv) | SimplifyMap
 | Snap (V : list iv) (M : list (iv * iv)) (D : list iv) (E : list (iv * iv))
+| Touch (i : iv)
 | Raw.
 
 (* the chain of substitutions applied in the order in which they were recorded; under the invariant (a substitute is a vertex when
@@ -112,13 +113,24 @@ Definition step (s : gstate) (o : op) : option gstate :=
   | AddSubstitute a b =>
       if mem a (vert s) && mem b (vert s) && negb (iv_eqb a b)
       then Some (mkG (pend s) (remove_iv a (vert s)) (smap s ++ [(a, b)]) (disc s) (edges s)) else None
-  | Discard i =>
-      if mem i (vert s) then Some (mkG (pend s) (remove_iv i (vert s)) (smap s) (i :: disc s) (edges s)) else None
+  | Discard i =>              (* IntronCollector.discard: discarded.add(i); del clustered_introns[i] if present *)
+      if mem i (vert s) then Some (mkG (pend s) (remove_iv i (vert s)) (smap s) (i :: disc s) (edges s))
+      else if mem i (keys (smap s))
+           (* a collapsed intron that a defaultdict look-up had re-created as a zero-coverage key (Touch) is discarded: from now on thread_introns
+              refuses it whatever the correction map says, so its entry is dead - the model drops the entry (snapshots are compared modulo dead entries) *)
+           then Some (mkG (pend s) (vert s) (filter (fun e => negb (iv_eqb (fst e) i)) (smap s)) (i :: disc s) (edges s))
+           else None
   | DropOut v | CutOut v =>
       Some (mkG (pend s) (vert s) (smap s) (disc s) (filter (fun e => negb (iv_eqb (fst e) v)) (edges s)))
   | SimplifyMap => Some (simplify s)
   | Snap V M D E =>
-      if same_set V (vert s) && same_set2 M (smap s) && same_set D (disc s) && same_set2 E (edges s) then Some s else None
+      (* clustered_introns may hold, besides the vertices, zero-coverage keys re-created by look-ups (Touch): removed introns;
+         the logged map may hold dead entries of discarded keys *)
+      if subset (vert s) V && subset V (vert s ++ keys (smap s) ++ disc s) &&
+         same_set2 (filter (fun e => negb (mem (fst e) (disc s))) M) (smap s) && same_set D (disc s) && same_set2 E (edges s) then Some s else None
+  | Touch i =>                (* clustered_introns[i] read for a missing key: the defaultdict creates it with count 0; i must be an intron the system
+                                 has seen.  The vertex set of the model does not change: the key carries no coverage and no read threads to it *)
+      if mem i (vert s ++ keys (smap s) ++ disc s) then Some s else None
   | Raw => None
   end.
 
@@ -376,7 +388,8 @@ Definition endpoints (E : list (iv * iv)) : list iv := map fst E ++ map snd E.
 Definition region_check (r : region) : bool :=
   let '(V, M, D) := r_final r in
   match run (init (r_reads r)) (r_ops r) with
-  | Some s => is_nil (pend s) && simplifiedb s && same_set V (vert s ++ r_touched r) && same_set2 M (smap s) && same_set D (disc s) &&
+  | Some s => is_nil (pend s) && simplifiedb s && same_set V (vert s ++ r_touched r) &&
+              same_set2 (filter (fun e => negb (mem (fst e) (disc s))) M) (smap s) && same_set D (disc s) &&
               subset (r_touched r) (vert s ++ keys (smap s) ++ disc s) &&      (* a re-created key is an intron the system has seen: removed (discarded / collapsed) or present *)
               same_chains (known_paths s (r_refs r)) (r_known r) &&
               forallb (fun t => match thread s (fst t) with Some p => chain_eqb p (snd t) | None => false end) (r_threads r)
